@@ -72,10 +72,15 @@ def syncCharges (a : Arr R) : Arr R :=
     if drop.isEmpty then ix else ix.dropCharges drop)
   { a with indices := newIdx }
 
-/-- `_map_blocks(fn_block, fn_sector)` (fermionic version re-keys the sign table too) -/
+/-- `_map_blocks(fn_block, fn_sector)`.  The fermionic version re-keys the sign table too, but
+    only the entries of STORED blocks (`if s in self._blocks`, evaluated on the blocks before they
+    are re-keyed); an entry left behind by a dropped block is discarded here. -/
 def mapBlocks (a : Arr R) (fs : Sector → Sector) (fb : Blk R → Blk R) : Arr R :=
   { a with blocks := adict (a.blocks.map (fun (s, b) => (fs s, fb b))),
-           phases := if a.fermi then adict (a.phases.map (fun (s, p) => (fs s, p))) else a.phases }
+           phases := if a.fermi then
+                       adict ((a.phases.filter (fun (s, _) => (alookup a.blocks s).isSome)).map
+                         (fun (s, p) => (fs s, p)))
+                     else a.phases }
 
 /-- validity of an axes permutation argument -/
 def isPerm (perm : List Nat) (n : Nat) : Bool :=
